@@ -340,6 +340,21 @@ type Result struct {
 
 // Mint issues the plan's certificates, validity windows relative to now.
 func (p *Plan) Mint(pool *Pool) ([]*CertEnt, error) {
+	// a security-key identity cannot be added by an agent client: it appears in the underlying agent directly
+	for _, op := range p.Ops {
+		if op.Kind != OpAdd {
+			continue
+		}
+		kid := op.Blob
+		for _, cs := range p.Certs {
+			if cs.ID == op.Blob {
+				kid = cs.KeyID
+			}
+		}
+		if k := pool.Key(kid); k != nil && k.SK {
+			op.Kind = OpDirectAdd
+		}
+	}
 	var out []*CertEnt
 	t := uint64(time.Now().Unix())
 	for _, cs := range p.Certs {
